@@ -363,6 +363,12 @@ func (r *coreRun) exec(ev coreEvent) (rec map[string]any) {
 		slog.SetDefault(l)
 	case "DbgMode":
 		is.SetDebugMode(ev.A == 1)
+	case "PkgSkip":
+		if ev.K == "SetSkip" {
+			slog.SetSkip(ev.A)
+		} else {
+			ret = r.idOf(slog.WithSkip(ev.A))
+		}
 	case "Flags":
 		r.flagsOp(ev)
 	case "PkgLevel":
